@@ -53,6 +53,39 @@ func (ex *Exec) instantiateHyps(sk map[string]SVal) {
 			ex.cx.assume(implies(h.guard, t))
 		}
 	}
+	// neighbours of integer constants (x[k-1] < x[k] style clauses)
+	if ex.cx.mode == "int" && len(sk) == 1 {
+		for n, v := range sk {
+			sc, ok := v.V.(Sc)
+			if !ok || sc.T.Sort != SInt {
+				continue
+			}
+			for _, d := range []int64{-1, 1} {
+				sk2 := map[string]SVal{n: {V: Sc{app(SInt, "+", sc.T, intLit(d))}, T: v.T}}
+				for _, h := range ex.qhyps {
+					if t, ok := h.inst(sk2); ok {
+						ex.cx.assume(implies(h.guard, t))
+					}
+				}
+			}
+		}
+	}
+}
+
+// assumeUniversal: after a goal with skolemised quantifiers has been posed,
+// later obligations may use its universally quantified form.
+func (ex *Exec) assumeUniversal(st *State, sk map[string]SVal, mk func() *SpecEnv, e Expr) {
+	if len(sk) == 0 {
+		return
+	}
+	env := mk()
+	nUnsup := len(ex.cx.unsupported)
+	t := env.evalBool(e)
+	if len(ex.cx.unsupported) != nUnsup {
+		ex.cx.unsupported = ex.cx.unsupported[:nUnsup]
+		return
+	}
+	ex.cx.assume(implies(st.reach, t))
 }
 
 // instantiateAtIndex: eager instantiation of the single-variable quantified
@@ -483,9 +516,9 @@ func (fr *Frame) execBlock(b *ssa.BasicBlock, st *State, incoming map[*ssa.Basic
 			}
 			if fr.isTop && ex.fc != nil && fr.ex.inHandler == 0 {
 				for _, cl := range ex.fc.AtReturn {
-					env := ex.specEnv(fr, st, ex.entry)
+					mk := func() *SpecEnv { return ex.specEnv(fr, st, ex.entry) }
 					nUnsup := len(ex.cx.unsupported)
-					g := env.evalBool(cl.Expr)
+					g, sk := mk().evalGoalSkolem(cl.Expr)
 					if len(ex.cx.unsupported) != nUnsup {
 						// a local of the clause is not in scope at this return
 						ex.cx.unsupported = ex.cx.unsupported[:nUnsup]
@@ -495,7 +528,9 @@ func (fr *Frame) execBlock(b *ssa.BasicBlock, st *State, incoming map[*ssa.Basic
 					if label == "" {
 						label = fmt.Sprintf("L%d", cl.Line)
 					}
+					ex.instantiateHyps(sk)
 					ex.oblige("atreturn", label, st, g, x.Pos(), cl.Props)
+					ex.assumeUniversal(st, sk, mk, cl.Expr)
 				}
 			}
 			fr.normal = append(fr.normal, exitRec{st, rv})
@@ -524,6 +559,14 @@ func (fr *Frame) edge(from, to *ssa.BasicBlock, st *State, cond Term, incoming m
 	}
 	s2 := st.clone()
 	ex.edgeFrom[s2] = from
+	// leaving a loop: exit invariants
+	for h, ord := range fr.loops.heads {
+		if fr.loops.body[h][from] && !fr.loops.body[h][to] && fr.isTop && ex.fc != nil && len(ex.fc.LoopExit[ord]) > 0 {
+			s3 := st.clone()
+			s3.reach = ex.cx.name("r", and(st.reach, cond))
+			fr.exitLoop(h, ord, s3, from)
+		}
+	}
 	incoming[to] = append(incoming[to], edgeState{s2, cond})
 }
 
@@ -619,15 +662,7 @@ func (ex *Exec) refOldStrict(r, ap Term) Term {
 }
 
 func (ex *Exec) refOld(r, ap Term) Term {
-	isObj := func(x Term) Term { return app(SBool, "(_ is obj)", x) }
-	lt := func(x Term) Term { return app(SBool, "<", app(SInt, "oid", x), ap) }
-	fb := app(SRef, "fbase", r)
-	eb := app(SRef, "ebase", r)
-	return and(
-		implies(isObj(r), lt(r)),
-		implies(and(app(SBool, "(_ is fld)", r), isObj(fb)), lt(fb)),
-		implies(and(app(SBool, "(_ is elem)", r), isObj(eb)), lt(eb)),
-	)
+	return ex.refOldStrict(r, ap)
 }
 
 func (fr *Frame) execInstr(instr ssa.Instruction, st *State) *State {
